@@ -374,7 +374,7 @@ def r7_any_all(body):
     s = body
     while True:
         m = None
-        for mm in _code_find(s, re.compile(r'([A-Za-z_][\w\.]*)\.iter\(\)\.(any|all)\(\|\s*(&?)\s*([A-Za-z_]\w*)\s*\|')):
+        for mm in _code_find(s, re.compile(r'([A-Za-z_][\w\.]*(?:\(\))?)\.iter\(\)\.(any|all)\(\s*(?:#\[inline\(always\)\]\s*)?\|\s*(&?)\s*([A-Za-z_]\w*)\s*\|')):
             m = mm
             break
         if not m:
@@ -409,6 +409,54 @@ def r7_any_all(body):
     return s, log
 
 
+
+def r8_all_block(body):
+    """R8: `E.iter().all(|&x| { STMTS })` / `E.iter().any(|&x| { STMTS })` / `E.iter().enumerate().all(|(i, &x)| { STMTS })`
+    where the closure body is a block (possibly mutating captured locals) -> explicit early-exit index loop
+    (definition of Iterator::all/any over a slice).  No invariant is generated: the contract supplies it (`loop N`).
+    Result variable: __rN, index __kN, slice __aN (N = running counter, fixed per function in textual order)."""
+    log = []
+    s = body
+    while True:
+        m = None
+        for mm in _code_find(s, re.compile(r'([A-Za-z_][\w\.]*(?:\(\))?)\.iter\(\)(\.enumerate\(\))?\.(any|all)\(\s*(?:#\[inline\(always\)\]\s*)?\|\s*([^|]*?)\s*\|\s*\{')):
+            m = mm
+            break
+        if not m:
+            break
+        src, enum_, which, pat = m.groups()
+        bo = m.end() - 1
+        bc = match_delim(s, bo)
+        blk = s[bo:bc + 1]
+        # closing paren of .all(
+        k = _skip_ws(s, bc + 1)
+        if s[k] != ')':
+            raise RuleError('R8: unexpected closure tail')
+        _counter[0] += 1
+        n = _counter[0]
+        av, kv, rv = '__a%d' % n, '__k%d' % n, '__r%d' % n
+        if enum_:
+            pm = re.match(r'^\(\s*([A-Za-z_]\w*)\s*,\s*(&?)\s*([A-Za-z_]\w*)\s*\)$', pat)
+            if not pm:
+                raise RuleError('R8: enumerate pattern %r' % pat)
+            iv, amp, xv = pm.groups()
+            bind = 'let %s = %s; let %s = %s%s[%s];' % (iv, kv, xv, '' if amp else '&', av, kv)
+        else:
+            pm = re.match(r'^(&?)\s*([A-Za-z_]\w*)$', pat)
+            if not pm:
+                raise RuleError('R8: pattern %r' % pat)
+            amp, xv = pm.groups()
+            bind = 'let %s = %s%s[%s];' % (xv, '' if amp else '&', av, kv)
+        if which == 'all':
+            new = ('{ let %s = %s; let mut %s: usize = 0; let mut %s = true; while %s < %s.len() { %s let __c%d: bool = %s; %s += 1; if !__c%d { %s = false; break; } } %s }'
+                   % (av, src, kv, rv, kv, av, bind, n, blk, kv, n, rv, rv))
+        else:
+            new = ('{ let %s = %s; let mut %s: usize = 0; let mut %s = false; while %s < %s.len() { %s let __c%d: bool = %s; %s += 1; if __c%d { %s = true; break; } } %s }'
+                   % (av, src, kv, rv, kv, av, bind, n, blk, kv, n, rv, rv))
+        s = s[:m.start()] + new + s[k + 1:]
+        log.append('R8: %s.iter()%s.%s(|%s| {…}) -> loop (__a%d/__k%d/__r%d)' % (src, enum_ or '', which, pat, n, n, n))
+    return s, log
+
 def r13_strip_inner_attrs(body):
     """R13 (part): drop statement/expression attributes that have no run-time meaning."""
     log = []
@@ -426,7 +474,8 @@ def apply_all(body, opts=None):
     opts = opts or {}
     log = []
     s = body
-    for f in (r13_strip_inner_attrs, r1_debug_asserts, r4_break_value, r5_copied_iter, r7_any_all):
+    _counter[0] = 0
+    for f in (r13_strip_inner_attrs, r1_debug_asserts, r4_break_value, r5_copied_iter, r8_all_block, r7_any_all):
         s, l = f(s)
         log += l
     s, l = r_for_loops(s, opts.get('loop_hints'))
@@ -457,6 +506,9 @@ SELFTEST = [
     (r4_break_value,
      '{ let has = loop { if a { break true; } while c { break; } if b { x; } else { break false; } }; has }',
      ['let has; loop { if a { { has = true; break; } } while c { break; } if b { x; } else { { has = false; break; } } } has }']),
+    (r8_all_block,
+     '{ let ok = self.representation().iter().all(#[inline(always)] |&pos| { let v = (total & pos) == 0; total |= pos; v }); ok }',
+     ['let __a1 = self.representation(); let mut __k1: usize = 0; let mut __r1 = true; while __k1 < __a1.len() { let pos = __a1[__k1]; let __c1: bool = { let v = (total & pos) == 0; total |= pos; v }; __k1 += 1; if !__c1 { __r1 = false; break; } } __r1 }']),
     (r5_copied_iter,
      '{ let mut iter = bytes.iter().copied(); raw = iter.next(); }',
      ['let mut iter = bytes.iter();', 'raw = (match iter.next() { Some(__r) => Some(*__r), None => None });']),
